@@ -176,7 +176,11 @@ DOMNode *DOMParentNode::insertBefore(DOMNode *newChild, DOMNode *refChild) {
         throw DOMException(DOMException::WRONG_DOCUMENT_ERR, 0, GetDOMParentNodeMemoryManager);
 
     // Prevent cycles in the tree
-    //only need to do this if the node has children
+    // a node can never be inserted into itself
+    if (newChild == getContainingNode())
+        throw DOMException(DOMException::HIERARCHY_REQUEST_ERR,0, GetDOMParentNodeMemoryManager);
+
+    //only need to check the ancestors if the node has children
     if(newChild->hasChildNodes()) {
         bool treeSafe=true;
         for(DOMNode *a=getContainingNode()->getParentNode();
